@@ -49,6 +49,10 @@ def gen_cases(tier, seed):
     for cls in ('StopIteration', 'TimeoutError', 'queue.Empty'):
         for rexc in (True, False):
             cases.append({'kind': 'parmappers', 'n': 6, 'concurrency': 2, 'return_x': False, 'return_exceptions': rexc, 'fail_rate': 0, 'force_class': cls, 'seed': rng.randrange(1 << 30)})
+    # the preprocessor rejects an element with one of the classes the library / asyncio / generators use for their own control flow
+    for cls in ('StopIteration', 'TimeoutError', 'queue.Empty', 'asyncio.QueueFull', 'KeyError'):
+        for rexc in (True, False):
+            cases.append({'kind': 'parmappers', 'n': 6, 'concurrency': 2, 'return_x': False, 'return_exceptions': rexc, 'fail_rate': 0, 'pre_class': cls, 'seed': rng.randrange(1 << 30)})
     for i in range(8 if tier == 'quick' else 120):
         cases.append({'kind': 'servers', 'n': rng.choice([1, 12, 40]), 'capacity': rng.choice([1, 2, 4, 16]),
                       'return_x': rng.random() < 0.5, 'return_exceptions': rng.random() < 0.6,
@@ -204,6 +208,16 @@ def run_case(case):
         if case.get('force_class'):
             items[2] = (items[2][0], items[2][1], case['force_class'])
         kw = dict(concurrency=case['concurrency'], return_x=case['return_x'], return_exceptions=case['return_exceptions'])
+        if case.get('pre_class'):
+            pre_cls = targets.handler_exc_class(case['pre_class'])
+
+            def pre(x):
+                if x[0] == 1:
+                    raise pre_cls('pre', x[0])
+                return x
+
+            kw['preprocessor'] = pre
+            obs['pairs_with_rejection'] += 3
 
         def canon(r):
             # StopIteration cannot travel through a generator / coroutine / asyncio future as itself: every variant delivers it as *some*
